@@ -6,17 +6,27 @@
   _mod_load_dynamic/_mod_register, _cmp_f, the two initialisation passes; list.c's list_sort as
   written; opt.c's opt_register).  The file system and the dynamic loader are parameters.
 
-  Three forms of _mod_register/_cmp_f are covered:
+  The forms of _mod_register / _cmp_f / _mod_load_dynamic that are covered:
+    `Now.loadAll`                THE CODE AS IT IS NOW (/repo HEAD fde0027; what `pdshmodel mod model` runs): personality
+                                 first, ties broken by type / file name, priorities COMPARED (no arithmetic: every int),
+                                 a directory maps NAMES to OBJECTS (`oid`) and a name whose object is already in the
+                                 module list is skipped.  `Now.loadDirG_eq_of_distinct_objects` + `Now.loadDirG_cmp`:
+                                 on names that denote distinct objects it IS `Tie.loadDir` on the rewritten directory,
+                                 for all priorities -- so every theorem below speaks about it
+    `Now.loadAllRename`          ... with findings/C17-sameobj-tie.patch (F17-SAMEOBJ-TIE, open)
     `loadDir` / `loadAll`        the pinned code (personality tested after the eviction; F17-PERS, F17-TIE)
     `loadAllPF`                  the code since commit 59829e8 (personality first): `loadAll` on the
                                  rewritten directory, justified by `Mod.registerPF_eq`
-    `Tie.loadDir` / `Tie.loadAllPF`  the proposed repair of F17-TIE (findings/C17.patch)
+    `Tie.loadDir` / `Tie.loadAllPF`  the code since c80ee4f (F17-TIE repaired), priorities subtracted in ℤ
+    `PrioWrap.cmpFWrap`          _cmp_f before 930abcb (32-bit subtraction; F17-PRIO-OVERFLOW)
   All theorems below that speak about `loadDir e d` hold for every directory, hence also for the
   rewritten one; `perm_invariant_current` and `perm_invariant_tiefix` state determinism for the newer forms.
 
   NOT proved here: that the C code equals the model (correspondence check), anything about dlopen
-  itself, the MAXPATHLEN guard of the ancestor walk.  Int overflow in _cmp_f: `priorities_in_range_sort_as_modelled`
-  (no effect below 2^30) and `prio_overflow_witness` (finding F17-PRIO-OVERFLOW beyond).
+  itself, the MAXPATHLEN guard of the ancestor walk (a module directory nested so deep that `dir/../../..` no longer
+  fits MAXPATHLEN: _path_permissions_ok gives up and nothing is loaded -- the safe side), determinism for directories in
+  which one object has several names AND an equal-priority duplicate lies between them (false of the code:
+  `sameobj_tie_witness`, finding F17-SAMEOBJ-TIE; true again with `rename`, not proved in general).
 
   THE LOADER'S I/O, exactly.  The model takes the world as parameters of `Env`/`Dir`/`File`; the
   correspondence check runs the real binary under harness/preload_shim.c, which makes the world BE
@@ -40,17 +50,16 @@
       the kernel's path resolution      : `dir/..` chains reach "/" (st_ino / st_dev of the real
                                            directories decide where the ancestor walk stops)
       getpwuid (local user), getcwd / chdir in the error path, glibc getopt (for option dispatch)
-    NOT MODELLED: ACLs, races between stat and dlopen (TOCTOU), MAXPATHLEN, int overflow of priorities.
+    NOT MODELLED: ACLs, races between stat and dlopen (TOCTOU), MAXPATHLEN.
       st_gid / group permission bits: mod.c does not look at them and neither does the model -- stated as
       `decisions_ignore_other_bits`.  Symbolic links: stat follows them, so a linked module file carries
       the attributes of its target and a PDSH_MODULE_DIR that names a link is judged by the ancestors of
       the link's target (the check builds both situations).  opendir failing after the path test passed
       and an empty directory are the same thing for the loader -- no entry, exit 1 -- and are run as the
       directory without entries.  ONE OBJECT UNDER TWO NAMES (symbolic or hard link inside the directory):
-      the model's files are distinct objects; the real loader gets the same handle and the same
-      pdsh_module_info for both names and, as the code stands, clears type and name of the shared descriptor
-      when it drops one of them (finding F17-SAMEOBJ: SIGSEGV; findings/C17-sameobj.patch skips the second
-      name -- the check then feeds the model the second name as an object that registers nothing).
+      MODELLED (Mod/Now.lean): the directory maps names to objects, the loader gets the same handle for
+      both names and, since fde0027, skips a name whose handle is in the module list (`no_object_registered_twice`;
+      before: F17-SAMEOBJ, SIGSEGV).  The check builds such directories (pool links s01, a19, a20) in every order.
 
   clause of the property text                           theorem(s)
   ----------------------------------------------------  ------------------------------------------------------
@@ -68,7 +77,11 @@
   nor below an insecure ancestor                        insecure_path_loads_nothing, path_decision, unknown_owner_loads_nothing
   root and set-uid runs ignore PDSH_MODULE_DIR          root_ignores_env, dir_decision
   all clauses at once, code as it is now                spec_sound
-  "for all priorities"                                   priorities_in_range_sort_as_modelled, prio_overflow_witness
+  "for all priorities"                                   priority_order_all_priorities, loader_compares_as_modelled;
+                                                           the code before 930abcb: priorities_in_range_sort_as_modelled,
+                                                           prio_overflow_witness_unchanged
+  one object under several names                        no_object_registered_twice, contents_determine_outcome_now
+                                                           (distinct objects); sameobj_tie_witness (F17-SAMEOBJ-TIE, open)
 -/
 import PdshVerif.Mod.Determinism
 import PdshVerif.Mod.TieLemmas
@@ -76,6 +89,7 @@ import PdshVerif.Mod.Spec
 import PdshVerif.Mod.SpecSound
 import PdshVerif.Mod.SplitLemmas
 import PdshVerif.Mod.PrioWrap
+import PdshVerif.Mod.Now
 import PdshVerif.Props.C18
 
 namespace PdshVerif.C17
@@ -486,26 +500,116 @@ theorem misc_list_from_command_line {fx : Opt.Fixes} {d : Opt.Defaults} {p : Opt
   obtain ⟨_, _, _, _, _, a6, _⟩ := C18.precedence h
   rw [a6]
 
-/-! ## priorities on a 32-bit int -/
+/-! ## priorities: every int -/
 
-/-- `_cmp_f` returns `y->priority - x->priority` in int arithmetic; the models subtract in ℤ.  On every module
-    list whose priorities are below 2^30 in magnitude list_sort with the machine's comparison (`cmpFWrap`: the
-    difference wrapped into 32 bits) gives exactly the list the model sorts -- so all theorems above speak about
-    the 32-bit code for such priorities (this is what "priorities far from INT_MAX" means, exactly) -/
+/-- "-M first, then priority-then-name order", FOR ALL PRIORITIES.  `_cmp_f` as it is now (930abcb) COMPARES the two
+    ints (`Now.cmpF` is the C expression, no arithmetic, so nothing can overflow); list_sort looks at the sign of the
+    comparison only, hence sorts every module list exactly like the model that subtracts in ℤ (`Now.listSort_eq`), and
+    the result is a permutation of the registered modules in descending priority order, name then type breaking
+    ties -- whatever the priorities are (INT_MIN and INT_MAX included) -/
+theorem priority_order_all_priorities (l : List Mod) :
+    listSort Now.cmpF l = listSort Tie.cmpF l ∧
+    (listSort Now.cmpF l).Perm l ∧
+    SortedBy Tie.cmpF (listSort Now.cmpF l) ∧
+    (listSort Now.cmpF l).Pairwise (fun a b => a.prio ≥ b.prio) := by
+  rw [Now.listSort_eq]
+  refine ⟨rfl, listSort_perm Tie.cmpF_totalPre l, listSort_sorted Tie.cmpF_totalPre l, ?_⟩
+  have hs := listSort_sorted Tie.cmpF_totalPre l
+  unfold SortedBy at hs
+  refine hs.imp ?_
+  intro a b h
+  rw [Tie.cmpF_le_iff] at h
+  unfold Tie.le3 at h
+  omega
+
+/-- the whole loader with the code's comparison is the loader of the theorems above, for every directory -/
+theorem loader_compares_as_modelled (e : Env) (d : Dir) :
+    loadDirG Tie.beats Now.cmpF e d = Tie.loadDir e d :=
+  Now.loadDirG_cmp Tie.beats e d
+
+/-- the code BEFORE 930abcb returned `y->priority - x->priority` in int arithmetic (`cmpFWrap`: the difference wrapped
+    into 32 bits).  Below 2^30 in magnitude that sorted like the model -/
 theorem priorities_in_range_sort_as_modelled (l : List Mod) (h : ∀ m ∈ l, PrioWrap.small m) :
     listSort PrioWrap.cmpFWrap l = listSort Tie.cmpF l :=
   PrioWrap.listSort_wrap_eq l h
 
-/-- F17-PRIO-OVERFLOW witness: priorities 100 and INT_MIN.  100 - INT_MIN does not fit an int, the wrapped
-    difference is negative, and the module with the LOWEST possible priority is put first (finding open;
-    findings/C17-prio.patch compares instead of subtracting) -/
-theorem prio_overflow_witness :
+/-- F17-PRIO-OVERFLOW (repaired by 930abcb), witness of the UNCHANGED code: priorities 100 and INT_MIN.  100 - INT_MIN
+    does not fit an int, the wrapped difference is negative and the module with the LOWEST possible priority came
+    first; the code as it is now puts it last, in both enumeration orders (a revert of 930abcb is reported by the
+    check with exactly this directory: pool modules m36, m01) -/
+theorem prio_overflow_witness_unchanged :
     let a : Mod := ⟨"a.so".toList, miscType, "alpha".toList, 100, ⟨some miscType, some "alpha".toList, 100, 3, some [], none⟩, false⟩
     let b : Mod := ⟨"b.so".toList, miscType, "beta".toList, -2147483648,
                     ⟨some miscType, some "beta".toList, -2147483648, 3, some [], none⟩, false⟩
     (listSort PrioWrap.cmpFWrap [a, b]).map (·.prio) = [-2147483648, 100] ∧
-    (listSort Tie.cmpF [a, b]).map (·.prio) = [100, -2147483648] ∧
-    (listSort PrioWrap.cmpFWrap [b, a]).map (·.prio) = [-2147483648, 100] := by
+    (listSort PrioWrap.cmpFWrap [b, a]).map (·.prio) = [-2147483648, 100] ∧
+    (listSort Now.cmpF [a, b]).map (·.prio) = [100, -2147483648] ∧
+    (listSort Now.cmpF [b, a]).map (·.prio) = [100, -2147483648] := by
+  decide
+
+/-! ## one object under several names -/
+
+/-- a module directory maps NAMES to OBJECTS (`oid`: which object a name denotes), and two names may share one
+    (symbolic or hard link).  Since fde0027 the loader never has one object in the module list twice, whatever the
+    directory, the enumeration order and the sharing: this is what F17-SAMEOBJ violated (two list entries shared one
+    pdsh_module_info, and destroying one of them cleared the type and name of the other: SIGSEGV) -/
+theorem no_object_registered_twice (rename : Bool) (oid : Str → Nat) (beats : Beats) (uid owner pers : Nat)
+    (files : List File) :
+    ((Now.loadFiles rename oid beats uid owner pers files).mods.map (fun m => oid m.file)).Nodup := by
+  unfold Now.loadFiles
+  exact Now.foldl_oids_nodup rename oid beats uid owner pers files ⟨[], [], 0⟩ (by simp)
+
+/-- THE OUTCOME IS A FUNCTION OF THE DIRECTORY CONTENTS AS A SET, for the code as it is now (personality first,
+    ties broken, priorities compared, an object already in the list skipped), all priorities, when the names of the
+    directory denote pairwise distinct objects -/
+theorem contents_determine_outcome_now (rename : Bool) (oid : Str → Nat) (e : Env) (p : List (Option FStat))
+    (fs₁ fs₂ : List File)
+    (hn₁ : (fs₁.map (·.fname)).Nodup) (hn₂ : (fs₂.map (·.fname)).Nodup)
+    (hset : ∀ f, f ∈ fs₁ ↔ f ∈ fs₂)
+    (hobj : ∀ f ∈ fs₁, ∀ g ∈ fs₁, oid f.fname = oid g.fname → f.fname = g.fname) :
+    let d₁ : Dir := ⟨p, fs₁.map (persFirstFile e.pers)⟩
+    let d₂ : Dir := ⟨p, fs₂.map (persFirstFile e.pers)⟩
+    let L := Now.loadDirG rename oid Tie.beats Now.cmpF e
+    (L d₁).fatal = (L d₂).fatal ∧ (L d₁).mods = (L d₂).mods ∧ (L d₁).calls = (L d₂).calls ∧
+    (L d₁).opts = (L d₂).opts ∧ (L d₁).regs = (L d₂).regs ∧ (L d₁).opened.Perm (L d₂).opened ∧
+    ∀ c, optUse (L d₁) c = optUse (L d₂) c := by
+  intro d₁ d₂ L
+  have inj : ∀ fs : List File, (∀ f ∈ fs, f ∈ fs₁) →
+      ∀ f ∈ fs.map (persFirstFile e.pers), ∀ g ∈ fs.map (persFirstFile e.pers),
+        oid f.fname = oid g.fname → f.fname = g.fname := by
+    intro fs hsub f hf g hg he
+    obtain ⟨f0, hf0, rfl⟩ := List.mem_map.mp hf
+    obtain ⟨g0, hg0, rfl⟩ := List.mem_map.mp hg
+    rw [fname_persFirst, fname_persFirst] at he ⊢
+    exact hobj f0 (hsub f0 hf0) g0 (hsub g0 hg0) he
+  have e1 : L d₁ = Tie.loadDir e d₁ := by
+    show Now.loadDirG rename oid Tie.beats Now.cmpF e d₁ = _
+    rw [Now.loadDirG_eq_of_distinct_objects rename oid Tie.beats Now.cmpF e d₁ (inj fs₁ (fun f h => h))]
+    exact Now.loadDirG_cmp Tie.beats e d₁
+  have e2 : L d₂ = Tie.loadDir e d₂ := by
+    show Now.loadDirG rename oid Tie.beats Now.cmpF e d₂ = _
+    rw [Now.loadDirG_eq_of_distinct_objects rename oid Tie.beats Now.cmpF e d₂
+      (inj fs₂ (fun f h => (hset f).mpr h))]
+    exact Now.loadDirG_cmp Tie.beats e d₂
+  rw [e1, e2]
+  exact contents_determine_outcome e p fs₁ fs₂ hn₁ hn₂ hset
+
+def wOid : Str → Nat := fun s =>
+  if s = "a19.so".toList ∨ s = "m19.so".toList then 1 else if s = "m01.so".toList then 2 else 3
+
+/-- non-vacuity of `hobj`, and the hypothesis cannot simply be dropped: F17-SAMEOBJ-TIE (open).  One object
+    (misc/alpha, priority 100) under the names a19.so and m19.so, and another misc/alpha of priority 100 in m01.so:
+    enumerated [m19, a19, m01] the object is registered as m19.so, its second name is skipped, and m01.so -- the
+    smaller file name -- replaces it; enumerated [a19, m19, m01] the object is registered as a19.so and stays.
+    Reproduced on the real loader; with findings/C17-sameobj-tie.patch (`rename`) both orders keep the object -/
+theorem sameobj_tie_witness :
+    let x := fun (f : String) => wMod f "misc" "alpha" 100 3 'D'
+    let y := wMod "m01.so" "misc" "alpha" 100 3 'a'
+    (Now.loadAll wOid (wEnv [x "m19.so", x "a19.so", y])).mods.map (fun m => (wOid m.file, m.active)) = [(2, true)] ∧
+    (Now.loadAll wOid (wEnv [x "a19.so", x "m19.so", y])).mods.map (fun m => (wOid m.file, m.active)) = [(1, true)] ∧
+    (Now.loadAllRename wOid (wEnv [x "m19.so", x "a19.so", y])).mods.map (fun m => (wOid m.file, m.active)) = [(1, true)] ∧
+    (Now.loadAllRename wOid (wEnv [x "a19.so", x "m19.so", y])).mods.map (fun m => (wOid m.file, m.active)) = [(1, true)] ∧
+    (Now.loadAllRename wOid (wEnv [y, x "m19.so", x "a19.so"])).mods.map (fun m => (wOid m.file, m.active)) = [(1, true)] := by
   decide
 
 /-! ## duplicates -/
